@@ -83,7 +83,7 @@ func (q *c03Quorum) reach(cl *c18Cluster, node int, kind string, pat int, off in
 
 func c03Run(cfg *C03Cfg, ch vs.Chooser, trace bool) (*Outcome, *vs.Result) {
 	out := &Outcome{}
-	res := vs.Run(vs.Config{Chooser: ch, Horizon: 20000, Trace: trace}, func() {
+	res := vs.Run(vs.Config{Chooser: ch, PostUnlockPoints: true, Horizon: 20000, Trace: trace}, func() {
 		vs.NoChoice(true)
 		cl, err := c18Build(cfg.Init)
 		if err != nil {
